@@ -21,3 +21,19 @@ def export_pure(c_empty, r_empty, which, **kw):
     b = fn()
     ok = t.serialize() == before and t.size == size and a == b
     return (not ok), f"export #{which} on a table of size {size}: size afterwards {t.size}, XML unchanged {t.serialize() == before}, same answer twice {a == b}"
+
+
+def text_export_twice(n_notes, header, simple, t, **kw):
+    from odfdo import Header, Note, Paragraph
+
+    def build():
+        e = Header(1, "T" + t) if header else Paragraph("T" + t)
+        for i in range(n_notes):
+            e.append(Note(note_class="footnote", note_id="n%d" % i, body="note"))
+            e.append("x")
+        return e
+
+    e1, e2 = build(), build()
+    xml = e1.serialize()
+    a, b, c = e1.get_formatted_text(simple=simple), e1.get_formatted_text(simple=simple), e2.get_formatted_text(simple=simple)
+    return not (a == b == c and e1.serialize() == xml), f"first {a!r}, second {b!r}, identical element built afresh {c!r}; element unchanged {e1.serialize() == xml}"
